@@ -226,8 +226,12 @@ Definition close (st : wstate) : wres * wstate * list wev :=
   end.
 
 Definition wlen (st : wstate) : N := N.of_nat (length (wbuf st)).
-(* is_write_ready / is_write_buf_full / is_write_buf_empty *)
-Definition write_ready (st : wstate) : bool := (wlen st <? HW)%N.
+(* is_write_ready / is_write_buf_full / is_write_buf_empty.
+   `write_buf.len() < HW`, computed without measuring the whole buffer: fewer than HW bytes iff
+   nothing is left after dropping HW - 1 of them (FramedFacts.write_ready_spec: = wlen st <? HW). *)
+Definition hw_pred : nat := N.to_nat (HW - 1).
+Definition write_ready (st : wstate) : bool :=
+  match skipn hw_pred (wbuf st) with [] => true | _ :: _ => false end.
 Definition wfull (st : wstate) : bool := negb (write_ready st).
 Definition wempty (st : wstate) : bool := match wbuf st with [] => true | _ => false end.
 
